@@ -211,7 +211,7 @@ def run_harness(ck, exe, ops_path, n_ops, tmpdir):
     """run the harness over all ops; restart after a sanitizer abort.  returns (lines, aborts{index: stderr})"""
     env = dict(os.environ)
     env['ASAN_OPTIONS'] = ASAN_OPTS
-    env['UBSAN_OPTIONS'] = 'print_stacktrace=0'
+    env['UBSAN_OPTIONS'] = 'print_stacktrace=1'
     env['C02_TMPDIR'] = tmpdir
     lines = {}
     aborts = {}
@@ -228,7 +228,7 @@ def run_harness(ck, exe, ops_path, n_ops, tmpdir):
         idx = first + len(got)
         err = p.stderr.decode('latin-1')
         err = '\n'.join(l for l in err.split('\n') if not l.startswith('BEGIN '))
-        aborts[idx] = err[-1500:]
+        aborts[idx] = err[:2500] + ('\n...\n' + err[-600:] if len(err) > 3100 else '')
         first = idx + 1
         if len(aborts) > 200:
             break
@@ -250,9 +250,34 @@ def sig_of_abort(err):
     return 'crash'
 
 
+def _short_func(f):
+    """mp::internal::TextReader<fmt::Locale>::ReadHeader(mp::NLHeader&) -> TextReader::ReadHeader"""
+    out, depth = [], 0
+    for ch in f:
+        if ch == '<':
+            depth += 1
+        elif ch == '>':
+            depth -= 1
+        elif depth == 0:
+            out.append(ch)
+    f = ''.join(out)
+    f = f.split('(')[0].strip()
+    f = f.split(' ')[-1]
+    parts = [p for p in f.split('::') if p]
+    return '::'.join(parts[-2:]) if parts else '?'
+
+
 def where_of_abort(err):
+    """the innermost stack frame inside namespace mp (function name, not a line number)"""
+    for line in err.split('\n'):
+        m = re.match(r'\s*#\d+ 0x[0-9a-f]+ in (.+) \(?/\S+\)?$', line)
+        if m and 'mp::' in m.group(1).split('(')[0] + m.group(1)[:40]:
+            f = m.group(1)
+            if f.startswith('void ') or f.startswith('int '):
+                f = f.split(' ', 1)[1]
+            return _short_func(f)
     m = re.search(r'(\w[\w./-]*\.(?:h|cc|cpp)):(\d+)', err)
-    return '%s:%s' % (os.path.basename(m.group(1)), m.group(2)) if m else '?'
+    return '%s' % os.path.basename(m.group(1)) if m else '?'
 
 
 def run(ck):
